@@ -135,7 +135,7 @@ func c11Creds(r *vlib.Rand, valid []string, foreign []string) []cred {
 			cred{Name: "suffix", Values: []string{"Bearer " + v[1:]}, Token: v[1:]},
 			cred{Name: "plus_one_char", Values: []string{"Bearer " + v + "x"}, Token: v + "x"},
 			cred{Name: "case_variant", Values: []string{"Bearer " + strings.ToUpper(v)}, Token: strings.ToUpper(v)},
-			cred{Name: "basic_scheme", Values: []string{"Basic " + base64.StdEncoding.EncodeToString([]byte(v + ":"))}},
+			cred{Name: "basic_scheme", Values: []string{"Basic " + base64.StdEncoding.EncodeToString([]byte(v+":"))}},
 			cred{Name: "basic_with_token", Values: []string{"Basic " + v}},
 			cred{Name: "lowercase_scheme", Values: []string{"bearer " + v}, Token: v, Ambiguous: true},
 			cred{Name: "no_scheme", Values: []string{v}},
@@ -288,6 +288,22 @@ func C11(c *vlib.Ctx) {
 					target := pp + ep.Endpoint + "/" + op
 					if r.Chance(0.1) && len(cfg.Routes) > 1 {
 						target = pp + cfg.Routes[(ci+1)%len(cfg.Routes)].Endpoint + "/.." + ep.Endpoint + "/" + op // dot-segment detour
+					}
+					if r.Chance(0.25) {
+						// non-canonical spellings that clean to the same endpoint/operation: the
+						// handler and the authorizer must agree on which endpoint is addressed
+						switch r.Intn(5) {
+						case 0:
+							target += "/"
+						case 1:
+							target += "/."
+						case 2:
+							target += "/x/.."
+						case 3:
+							target = pp + ep.Endpoint + "//" + op
+						case 4:
+							target = pp + ep.Endpoint + "/./" + op + "/"
+						}
 					}
 					wit := map[string]any{"config": cfg.Text, "target": target, "credential": cr.Name, "values": cr.Values, "endpoint_configured": configured}
 					if cr.Name == "token_with_nul" {
